@@ -2,6 +2,7 @@ SPECIFICATION Spec
 CONSTANTS
   GseLenMax = 15
   TotalLenMax = 31
+  ExtLens = {0, 2, 4, 10}
   PduLens = {0,1,2,3,4,5,6,7,8,9,10,11,12,13,14,15,16,17,18,19,20,21,22,23,24,25,26,27,28,29,30,31,32}
   Bufs = {0,1,2,3,4,5,6,7,8,9,10,11,12,13,14,15,16,17,18,19,20,21,22}
   AllFills = TRUE
